@@ -18,7 +18,7 @@ func requestPathList(p *Program) []*ssa.Function {
 		fns = append(fns, f)
 	}
 	sort.Slice(fns, func(i, j int) bool { return fns[i].String() < fns[j].String() })
-	return fns
+	return p.asUnits(fns)
 }
 
 func checkC14(p *Program, tier string) *Result {
